@@ -10,14 +10,37 @@ BASELINE = ("cd /repo && /venv/bin/python -m pytest -ra -q -p no:cacheprovider -
             "--continue-on-collection-errors")
 
 # property -> (category, text, design_ref, level_note, technique)
+_NOTE = ("simulated SLURM, lock library, clock and subprocess layer at the process boundary (harness/boundary.py); "
+         "truthful squeue; bounds as stated in the evidence file")
+_TECH = "TLA+ models (JadeImpl/Batching) checked by TLC + TLC trace validation of real executions against JadeMonitor"
+
+
+def _claim(text, ref):
+    return ("model_checking", text, ref, _NOTE, _TECH)
+
+
 CLAIMS = {
-    "C01": ("model_checking",
-            "TLC enumerates every batch-construction input with <=3 jobs on Batching.tla (no double placement, admissible "
-            "batches, node budget, termination); traces recorded from the real submit-jobs/run-jobs/try-submit-jobs under "
-            "random interleavings are validated by TLC against the OnePlacement/FreshBatchIndex/OneLaunch/FinalPlacement "
-            "clauses of JadeMonitor.tla. Bounded: small scopes exhaustively, larger ones sampled.",
-            "5-C01", "simulated SLURM and lock library at the process boundary; bounds as stated in the evidence",
-            "TLA+ model (Batching) + TLC trace validation of real executions against JadeMonitor"),
+    "C01": _claim("TLC enumerates every batch-construction input with <=3 jobs on Batching.tla and every interleaving of "
+                  "JadeImpl on small scenarios (no double placement, fresh batch numbers, one launch); JadeImpl behaviours are "
+                  "replayed into the real code and must produce the predicted events; traces of the real submit-jobs/run-jobs/"
+                  "try-submit-jobs under random interleavings are validated by TLC against the C01 clauses of JadeMonitor.tla. "
+                  "Bounded: small scopes exhaustively, larger ones sampled.", "5-C01"),
+    "C02": _claim("StartAfterBlockers (every launch finds a result row on disk for each configured blocker) is checked by TLC "
+                  "on all JadeImpl interleavings (node-level gate in NodePoll, submitter-level hand-over in SubmitBatch) and on "
+                  "every launch event of real traces (model replays + random DAGs/parameters/schedules).", "5-C02"),
+    "C03": _claim("FinalResultsComplete/FinalResultsMatchReference/OneEntryPerJob at every results.json of fault-free runs: "
+                  "the reference outcome is computed from the DAG, flags and exit codes only, so every schedule and parameter "
+                  "set of a scenario is compared with the same reference; decided on all JadeImpl interleavings and on real "
+                  "traces.", "5-C03"),
+    "C04": _claim("CanceledShape/CanceledNeverRuns/CanceledOnlyIf/CanceledIff/RanExactlyOnceUnlessCanceled on JadeImpl (node-"
+                  "level fixpoint in NodePoll, submitter-level fixpoint in CancelPass) and on real traces.", "5-C04"),
+    "C05": _claim("Safety clauses (QuiescentRoundProgress, NoIdleLeftover, CompleteHasAllResults, SummaryBeforeFlag, "
+                  "CompleteOnce, NoSbatchAfterComplete) on JadeImpl and real traces; eventual completion as bounded recovery on "
+                  "the real code (CompletesAfterRecovery) and on the model.", "5-C05"),
+    "C06": _claim("NodesBound against the simulator's ground truth after every sbatch/hpc event and ProcsBound after every "
+                  "launch, on JadeImpl and real traces.", "5-C06"),
+    "C09": _claim("All status clauses evaluated after every cluster-lock release (and between consecutive statuses) on "
+                  "JadeImpl and on real traces.", "5-C09"),
 }
 
 NOT_YET = "check not built yet in this round (the specification and harness are being extended property by property)"
